@@ -102,3 +102,82 @@ def load_tables():
                 with open(os.path.join(tdir, f)) as fh:
                     out[f[:-5]] = json.load(fh)
     return out
+
+
+# ---- helpers shared by path rules ------------------------------------------
+from cg import result_disposition  # noqa: E402
+
+
+def is_result_ty(ty):
+    return ty["s"].startswith("std::result::Result<")
+
+
+def is_io_result_ty(ty):
+    s = ty["s"]
+    return s.startswith("std::result::Result<") and s.rstrip(">").endswith("std::io::Error")
+
+
+class FnView:
+    """Per-function derived info: dispositions of Result-returning calls and
+    the point-graph nodes of their ok / err successors."""
+
+    def __init__(self, ctx, fn):
+        self.ctx = ctx
+        self.fn = fn
+        self.pg = ctx.pg(fn)
+        self.calls = {c.bb: c for c in ctx.cg.calls[fn.path] if c.kind == "call"}
+        self._disp = {}
+
+    def disp(self, bb):
+        d = self._disp.get(bb)
+        if d is None:
+            t = self.fn.blocks[bb]["term"]
+            if t["t"] == "call" and not t["dest"]["proj"] and is_result_ty(self.fn.locals[t["dest"]["local"]]):
+                d = result_disposition(self.fn, bb)
+            else:
+                d = {"kind": "n/a"}
+            self._disp[bb] = d
+        return d
+
+    def ok_nodes(self, bb):
+        d = self.disp(bb)
+        if d["kind"] in ("try", "matched"):
+            return self.pg.edge_node(d["switch_bb"], d["ok"])
+        return []
+
+    def err_nodes(self, bb):
+        d = self.disp(bb)
+        if d["kind"] in ("try", "matched"):
+            return self.pg.edge_node(d["switch_bb"], d["err"])
+        return []
+
+    def all_err_nodes(self):
+        out = []
+        for bb in self.calls:
+            out += self.err_nodes(bb)
+        return out
+
+    def call_nodes(self, pred):
+        return [("t", bb) for bb, c in self.calls.items() if pred(c)]
+
+    def stores_to_field(self, field, owner_sub=None):
+        """Statement nodes assigning to a place whose last field projection is `field`."""
+        out = []
+        for bb, blk in enumerate(self.fn.blocks):
+            if blk["cleanup"]:
+                continue
+            for i, st in enumerate(blk["stmts"]):
+                if st["s"] != "assign":
+                    continue
+                fl = [e for e in st["place"]["proj"] if e["p"] == "field"]
+                if fl and fl[-1]["name"] == field and (owner_sub is None or owner_sub in fl[-1]["owner"]):
+                    out.append(("s", bb, i))
+        return out
+
+
+def view(ctx, fn):
+    c = ctx.__dict__.setdefault("_views", {})
+    v = c.get(fn.path)
+    if v is None:
+        v = c[fn.path] = FnView(ctx, fn)
+    return v
